@@ -110,6 +110,16 @@ static void value_case(T v, bool all_bases)
         vrt::evals();
         if (vrt::str_of(t) != ref_text(v, 10, false)) viol(tn, "from_int:default-base", ref_text(v, 10, false));
     }
+    // deprecated 64-bit spellings
+    if constexpr (sizeof(T) == 8) {
+        for (int base : {2, 10, 16, 36}) {
+            ST::string t;
+            if constexpr (std::is_signed<T>::value) t = ST::string::from_int64(static_cast<int64_t>(v), base, true);
+            else t = ST::string::from_uint64(static_cast<uint64_t>(v), base, true);
+            vrt::evals();
+            if (vrt::str_of(t) != ref_text(v, base, true)) viol(tn, "from_int64/uint64", sfmt("value=%s base=%d got=%s", ref_text(v, 10, false).c_str(), base, vrt::str_of(t).c_str()));
+        }
+    }
     // the same digits through ST::format and string_stream
     struct F { const char *fmt; int base; bool upper; };
     static const F fmts[] = {{"{}", 10, false}, {"{d}", 10, false}, {"{x}", 16, false}, {"{X}", 16, true}, {"{o}", 8, false}, {"{b}", 2, false}};
